@@ -40,9 +40,20 @@ Definition accept_ok (P : bool -> bool -> bool) (st : state) : bool :=
 Definition successors (rp : list N) (st : state) : list state :=
   let '(s, a, b) := st in map (fun c => (false, nderiv c a s, nderiv c b s)) rp.
 
-(* the verified part: V is closed under successors and accepting everywhere *)
-Definition closed (P : bool -> bool -> bool) (rp : list N) (V : list state) : bool :=
-  forallb (fun st => accept_ok P st && forallb (fun st' => mem_state st' V) (successors rp st)) V.
+(* every range of r occurs in rs (derivatives never create ranges, so this holds for
+   everything the exploration reaches; checked, not assumed) *)
+Definition range_eqb (x y : N * N) : bool := (fst x =? fst y) && (snd x =? snd y).
+Definition ranges_within (rs : list (N * N)) (r : re) : bool :=
+  forallb (fun x => existsb (range_eqb x) rs) (ranges_of r).
+
+(* the verified part: V is closed under successors, accepting everywhere, and mentions
+   only ranges of rs (so that [reps rs excluded] has a representative of every class) *)
+Definition closed (P : bool -> bool -> bool) (rs : list (N * N)) (excluded : list N) (V : list state) : bool :=
+  let rp := reps rs excluded in
+  forallb (fun st =>
+    let '(s, a, b) := st in
+    ranges_within rs a && ranges_within rs b && accept_ok P st &&
+    forallb (fun st' => mem_state st' V) (successors rp st)) V.
 
 (* ---------- untrusted exploration with witness paths ---------- *)
 Inductive verdict :=
@@ -70,10 +81,11 @@ Fixpoint explore (P : bool -> bool -> bool) (rp : list N) (fuel : nat)
 Definition check (P : bool -> bool -> bool) (excluded : list N) (fuel : nat) (r1 r2 : re) : verdict :=
   let a := norm r1 in
   let b := norm r2 in
-  let rp := reps (ranges_of a ++ ranges_of b) excluded in
+  let rs := ranges_of a ++ ranges_of b in
+  let rp := reps rs excluded in
   match explore P rp fuel [((true, a, b), (true, [])); ((false, a, b), (false, []))] [] with
   | Holds V =>
-    if closed P rp V && mem_state (true, a, b) V && mem_state (false, a, b) V then Holds V else OutOfFuel
+    if closed P rs excluded V && mem_state (true, a, b) V && mem_state (false, a, b) V then Holds V else OutOfFuel
   | v => v
   end.
 
